@@ -7,6 +7,8 @@
       status stored by the same commit (not dead on arrival)
   R4  a workflow that ends not SUCCEEDED cancels its RUNNING top-level stages in the same commit
   R5  no silent consume: a path that leaves the own stage/task RUNNING (written on this path) pushed a continuation or raised
+  R6  consume table: every path that consumes its message without pushing or storing anything is taken only under a
+      reviewed condition (moot by durable state / somebody else carries the workflow on)
 """
 from __future__ import annotations
 
@@ -44,6 +46,100 @@ SILENT_RUNNING_OK = {
 }
 
 
+# R6: reviewed conditions under which a handler may consume its message without a continuation.
+# facts: leaf tests of the handler's own Ifs ("!": decided False; "fn::" qualifies by function)
+MOOT = "moot: the addressed entity already left the status this handler acts on (a duplicate, or overtaken by another message)"
+CONSUME_OK = {
+    "StartWorkflowHandler": [
+        ({"execution.status != WorkflowStatus.NOT_STARTED"}, MOOT),
+        ({"execution.is_canceled"}, "canceled before it started: the CancelWorkflow step that set the flag pushes CompleteWorkflow in its own commit"),
+    ],
+    "StartWaitingWorkflowsHandler": [
+        ({"!message.pipeline_config_id"}, "no concurrency group: nothing to promote"),
+        ({"!buffered"}, "no BUFFERED workflow in the group"),
+        ({"buffered"}, "promotion loop with no free slot (or zero iterations in the abstraction): the remaining workflows stay BUFFERED, an explicit wait for a slot"),
+    ],
+    "SkipStageHandler": [({"stage.status != WorkflowStatus.NOT_STARTED"}, MOOT)],
+    "CancelStageHandler": [({"stage.status.is_complete"}, MOOT)],
+    "ContinueParentStageHandler": [
+        ({"_handle_before_phase::after_stages", "_handle_before_phase::!not_started_after"}, "task-less parent whose after-stages were already started: their completion pushes ContinueParentStage(STAGE_AFTER)"),
+        ({"!phase == SyntheticStageOwner.STAGE_BEFORE", "!phase == SyntheticStageOwner.STAGE_AFTER"}, "neither phase: SyntheticStageOwner has exactly these two members (C05.R6 checks the enum)"),
+    ],
+    "JumpToStageHandler": [({"source_stage is None"}, "jump request naming a source stage that does not exist: nothing was started on its behalf")],
+    "SignalStageHandler": [({"!stage.status == WorkflowStatus.SUSPENDED", "!message.persistent"}, "a non-persistent signal to a stage that is not waiting is dropped by design (C18)")],
+    "CancelRegionHandler": [
+        ({"!isinstance(execution, Workflow)"}, "no such workflow"),
+        ({"!region"}, "empty region name"),
+        ({"!stages_to_cancel"}, "no active stage in the region"),
+    ],
+    "AddMultiInstanceHandler": [
+        ({"stage.mi_config is None"}, "not a multi-instance stage"),
+        ({"!stage.mi_config.allow_dynamic"}, "dynamic instances not allowed"),
+        ({"stage.status.is_complete"}, MOOT),
+    ],
+    "StartTaskHandler": [({"task_model.status != WorkflowStatus.NOT_STARTED"}, MOOT)],
+    "CompleteTaskHandler": [({"task.status != WorkflowStatus.RUNNING"}, MOOT)],
+    "CompleteStageHandler": [
+        ({"stage.status == WorkflowStatus.NOT_STARTED"}, "stale message of a previous loop iteration: the jump that reset the stage pushed StartStage in the same commit"),
+        ({"stage.status not in {WorkflowStatus.RUNNING}"}, MOOT + " (halt statuses re-push the workflow/parent completion instead)"),
+        ({"!status == WorkflowStatus.RUNNING", "in_flight_children"}, "failed stage whose on-failure / after children are still in flight: their completion drives the parent"),
+        ({"status == WorkflowStatus.RUNNING"}, "determine_status() says tasks or synthetic children are still in flight: their own completion messages carry the stage on"),
+    ],
+    "CompleteWorkflowHandler": [({"execution.status.is_complete"}, MOOT)],
+    "CancelWorkflowHandler": [({"execution.status.is_complete"}, MOOT)],
+    "RestartStageHandler": [
+        ({"execution.is_canceled"}, "a canceled workflow is not restarted"),
+        ({"!stage.status.is_complete"}, "only a completed stage can be restarted"),
+    ],
+    "ResumeStageHandler": [({"stage.status != WorkflowStatus.PAUSED"}, MOOT)],
+    "PauseTaskHandler": [({"task.status.is_complete"}, MOOT)],
+}
+CONSUME_MODE = {"CompleteStageHandler": "ret", "JumpToStageHandler": "ret"}      # full condition set too large: early-return tests only
+CONSUME_UNDECIDED = {"StartStageHandler": "condition set too large to enumerate; its consume branches are covered by C04/C11 (claim loser, refused claim) and C05.R5",
+                     "RunTaskHandler": "condition set too large to enumerate; covered by C05.R5 (no silent RUNNING) and C02.R3"}
+
+
+def _r6(ctx, rep) -> None:
+    from ..consume import consume_paths, justify
+    from ..handlers import registered_handlers
+    rep.rule("C05.R6", "every handler path that returns normally without pushing a message or storing a status is taken under a reviewed path condition (table CONSUME_OK: moot by durable state, or another in-flight entity carries the workflow on)")
+    n_paths = n_cons = 0
+    for h in registered_handlers(ctx.prog):
+        name = h.cls.name
+        if h.marker:
+            continue
+        if name in CONSUME_UNDECIDED:
+            rep.undecided.append(f"C05.R6 for {name}: {CONSUME_UNDECIDED[name]}")
+            continue
+        entries = CONSUME_OK.get(name)
+        try:
+            cps, n = consume_paths(ctx, h, CONSUME_MODE.get(name, "all"))
+        except AnalysisError as e:
+            rep.error(f"C05.R6 {name}: {e}")
+            continue
+        n_paths += n
+        used = set()
+        for cp in cps:
+            n_cons += 1
+            j = justify(cp, entries or [])
+            cond = " ; ".join(cp.ordered) or "(no test decided)"
+            if j is not None:
+                used.add(tuple(sorted(j[0])))
+                rep.ok("C05.R6", f"{name}: consume [{cp.shape}]", f"under {cond}: {j[1]}", cp.site[0], cp.site[1])
+            else:
+                rep.fail("C05.R6", f"{name}: message consumed without continuation", f"path [{cp.shape}] taken under `{cond}` pushes nothing and stores nothing, and this condition is not a reviewed reason for ending the message chain: "
+                         "if nobody else is certain to continue the workflow it is stuck with an empty queue", cp.site[0], cp.site[1], disc="consume:" + ";".join(sorted(f for f in cp.facts if "::" not in f)))
+        for facts, reason in entries or []:
+            if tuple(sorted(facts)) not in used:
+                rep.notes.append(f"C05.R6 table entry not exercised on this tree: {name} {sorted(facts)}")
+    rep.count(consume_probe_paths=n_paths, consume_paths=n_cons)
+    rep.floor("consume-only paths examined", n_cons, 30)
+    # the phase enum is closed
+    so = [c for m in ctx.prog.modules.values() for c in m.classes.values() if c.name == "SyntheticStageOwner"]
+    members = [norm(s_.targets[0]) for s_ in so[0].node.body if isinstance(s_, ast.Assign)] if so else []
+    rep.check(sorted(members) == ["STAGE_AFTER", "STAGE_BEFORE"], "C05.R6", "SyntheticStageOwner has exactly STAGE_BEFORE and STAGE_AFTER", f"members {members}", so[0].module.relpath if so else "", so[0].node.lineno if so else 0, disc="phase-enum")
+
+
 def run(ctx, rep) -> None:
     prog, T = ctx.prog, ctx.st
     COMPLETED = T.sets["COMPLETED_STATUSES"]
@@ -52,7 +148,7 @@ def run(ctx, rep) -> None:
     rep.rule("C05.R3", "for every push of a message addressing the handler's own task/stage: status stored by that commit ∩ statuses in which the receiving handler acts ≠ ∅")
     rep.rule("C05.R4", "CompleteWorkflow: non-SUCCEEDED outcomes push CancelStage for every RUNNING top-level stage in the transaction that stores the outcome")
     rep.rule("C05.R5", "a normally returning path whose commits leave the own stage/task in RUNNING (written on this path) contains a continuation push")
-    rep.undecided += ["liveness in general: that no arrival order wedges a workflow", "paths that consume a message without effects are not all proved to be guarded by durable state"]
+    rep.undecided += ["liveness in general: that no arrival order wedges a workflow", "whether each reviewed consume condition really implies that somebody else continues the workflow (argued per entry in CONSUME_OK, not proved)"]
     res = all_paths(ctx)
     infos = [p for p in path_infos(res) if p.message]
     ACC = accept_table(T)
@@ -60,6 +156,7 @@ def run(ctx, rep) -> None:
 
     # ---- R1 (structural part; the predicate part is decided by E7 in _r1_pred) ----------------------------
     _r1(ctx, rep)
+    _r6(ctx, rep)
 
     # ---- R2 ----------------------------------------------------------------------------------------
     n2 = 0
